@@ -200,6 +200,7 @@ func init() {
 			}},
 			{"flags-effects", "for every system call and native-method registration the effects of the handler over the module-restricted call graph (contract-storage write, notification, script load) are covered by the declared required flags (legacy superseded registrations and the payment callback tabled)", ruleFlagsEffects},
 			{"native-flag-check", "native.Call and Context.SyscallHandler invoke the handler only behind the Has(RequiredFlags) test; the historical relaxation is confined to pre-Aspidochelone Management deploy/update", ruleFlagChecks},
+			{"scopeless-loader", "a frame loaded by a function that opens no rollback scope for it (System.Runtime.LoadScript) gets flags whose upper bound - constants from the type checker, & intersects, &^ clears - contains neither WriteStates nor AllowNotify: flags only shrink, and a dynamic script is read-only", ruleScopelessLoader},
 			{"call-guards", "safe methods are called with write/notify stripped, a deployed caller passes CanCall before a non-safe call, flags given to the loaders are the intersection with the current context's flags, and no other loader site exists in the execution closure", ruleCallGuards},
 			{"wild-nonnil", "an explicit (possibly empty) method/trust list is never stored as a possibly-nil slice into a wildcard container, for which nil means wildcard", ruleWildNonNil},
 			{"perm-method-check", "every allowing exit of Permission.IsAllowed passes the method-list check, hash/group kinds compare the callee, and switches over the permission kind are exhaustive", rulePermissions},
